@@ -1,1 +1,249 @@
-//! (reference for sm4: to be written)
+//! SM4 block cipher, written from GB/T 32907-2016 "Information security technology -- SM4 block cipher
+//! algorithm" (identical in content to GM/T 0002-2012), following the standard's own structure:
+//!   clause 5   key and parameters (MK, rk, FK, CK)
+//!   clause 6   round function F, composite permutation T = L(tau(.)), S-box table
+//!   clause 7.1 encryption, 7.2 decryption (round keys in reverse order), 7.3 key expansion (T' = L'(tau(.)))
+//!   annex A    worked examples (used as unit tests below)
+//! Words are 32 bits, byte strings are read big-endian ("the leftmost byte is the most significant").
+//!
+//! The S-box is given by the standard only as a 16 x 16 table (row = high nibble, column = low nibble); the table
+//! below is a snapshot of the pinned tree (/repo/sm4/src/consts.rs), *independently cross-checked* in the unit tests
+//! against the published algebraic description S(x) = A * inv(A * x + c) + c over GF(2^8)
+//! (Liu, Ji, Hu, Ding, Lv, Pyshkin, Weinmann: "Analysis of the SMS4 block cipher", ACISP 2007).
+//! FK is the standard's system parameter; CK is computed from the standard's formula ck_{i,j} = (4i + j) * 7 mod 256.
+
+/// clause 6.2 (a): S-box, `SBOX[(row << 4) | column]`.
+pub const SBOX: [u8; 256] = [
+    0xd6, 0x90, 0xe9, 0xfe, 0xcc, 0xe1, 0x3d, 0xb7, 0x16, 0xb6, 0x14, 0xc2, 0x28, 0xfb, 0x2c, 0x05,
+    0x2b, 0x67, 0x9a, 0x76, 0x2a, 0xbe, 0x04, 0xc3, 0xaa, 0x44, 0x13, 0x26, 0x49, 0x86, 0x06, 0x99,
+    0x9c, 0x42, 0x50, 0xf4, 0x91, 0xef, 0x98, 0x7a, 0x33, 0x54, 0x0b, 0x43, 0xed, 0xcf, 0xac, 0x62,
+    0xe4, 0xb3, 0x1c, 0xa9, 0xc9, 0x08, 0xe8, 0x95, 0x80, 0xdf, 0x94, 0xfa, 0x75, 0x8f, 0x3f, 0xa6,
+    0x47, 0x07, 0xa7, 0xfc, 0xf3, 0x73, 0x17, 0xba, 0x83, 0x59, 0x3c, 0x19, 0xe6, 0x85, 0x4f, 0xa8,
+    0x68, 0x6b, 0x81, 0xb2, 0x71, 0x64, 0xda, 0x8b, 0xf8, 0xeb, 0x0f, 0x4b, 0x70, 0x56, 0x9d, 0x35,
+    0x1e, 0x24, 0x0e, 0x5e, 0x63, 0x58, 0xd1, 0xa2, 0x25, 0x22, 0x7c, 0x3b, 0x01, 0x21, 0x78, 0x87,
+    0xd4, 0x00, 0x46, 0x57, 0x9f, 0xd3, 0x27, 0x52, 0x4c, 0x36, 0x02, 0xe7, 0xa0, 0xc4, 0xc8, 0x9e,
+    0xea, 0xbf, 0x8a, 0xd2, 0x40, 0xc7, 0x38, 0xb5, 0xa3, 0xf7, 0xf2, 0xce, 0xf9, 0x61, 0x15, 0xa1,
+    0xe0, 0xae, 0x5d, 0xa4, 0x9b, 0x34, 0x1a, 0x55, 0xad, 0x93, 0x32, 0x30, 0xf5, 0x8c, 0xb1, 0xe3,
+    0x1d, 0xf6, 0xe2, 0x2e, 0x82, 0x66, 0xca, 0x60, 0xc0, 0x29, 0x23, 0xab, 0x0d, 0x53, 0x4e, 0x6f,
+    0xd5, 0xdb, 0x37, 0x45, 0xde, 0xfd, 0x8e, 0x2f, 0x03, 0xff, 0x6a, 0x72, 0x6d, 0x6c, 0x5b, 0x51,
+    0x8d, 0x1b, 0xaf, 0x92, 0xbb, 0xdd, 0xbc, 0x7f, 0x11, 0xd9, 0x5c, 0x41, 0x1f, 0x10, 0x5a, 0xd8,
+    0x0a, 0xc1, 0x31, 0x88, 0xa5, 0xcd, 0x7b, 0xbd, 0x2d, 0x74, 0xd0, 0x12, 0xb8, 0xe5, 0xb4, 0xb0,
+    0x89, 0x69, 0x97, 0x4a, 0x0c, 0x96, 0x77, 0x7e, 0x65, 0xb9, 0xf1, 0x09, 0xc5, 0x6e, 0xc6, 0x84,
+    0x18, 0xf0, 0x7d, 0xec, 0x3a, 0xdc, 0x4d, 0x20, 0x79, 0xee, 0x5f, 0x3e, 0xd7, 0xcb, 0x39, 0x48,
+];
+
+/// clause 7.3 (b): system parameter FK.
+pub const FK: [u32; 4] = [0xA3B1BAC6, 0x56AA3350, 0x677D9197, 0xB27022DC];
+
+/// clause 7.3 (c): fixed parameter CK_i = (ck_{i,0}, ck_{i,1}, ck_{i,2}, ck_{i,3}), ck_{i,j} = (4i + j) * 7 (mod 256).
+pub const fn ck(i: usize) -> u32 {
+    let mut w = 0u32;
+    let mut j = 0;
+    while j < 4 {
+        w = (w << 8) | (((4 * i + j) * 7) % 256) as u32;
+        j += 1;
+    }
+    w
+}
+pub const CK: [u32; 32] = {
+    let mut t = [0u32; 32];
+    let mut i = 0;
+    while i < 32 {
+        t[i] = ck(i);
+        i += 1;
+    }
+    t
+};
+
+/// clause 6.2 (a): non-linear transformation tau: four S-boxes in parallel on A = (a0, a1, a2, a3).
+pub const fn tau(a: u32) -> u32 {
+    let a0 = (a >> 24) as u8;
+    let a1 = (a >> 16) as u8;
+    let a2 = (a >> 8) as u8;
+    let a3 = a as u8;
+    ((SBOX[a0 as usize] as u32) << 24) | ((SBOX[a1 as usize] as u32) << 16) | ((SBOX[a2 as usize] as u32) << 8) | SBOX[a3 as usize] as u32
+}
+
+/// clause 6.2 (b): linear transformation L(B) = B ^ (B <<< 2) ^ (B <<< 10) ^ (B <<< 18) ^ (B <<< 24).
+pub const fn l(b: u32) -> u32 { b ^ b.rotate_left(2) ^ b.rotate_left(10) ^ b.rotate_left(18) ^ b.rotate_left(24) }
+
+/// clause 7.3: L'(B) = B ^ (B <<< 13) ^ (B <<< 23).
+pub const fn l_prime(b: u32) -> u32 { b ^ b.rotate_left(13) ^ b.rotate_left(23) }
+
+/// clause 6.2: composite permutation T(.) = L(tau(.)).
+pub const fn t(x: u32) -> u32 { l(tau(x)) }
+
+/// clause 7.3: T'(.) = L'(tau(.)).
+pub const fn t_prime(x: u32) -> u32 { l_prime(tau(x)) }
+
+/// clause 6.1: round function F(X0, X1, X2, X3, rk) = X0 ^ T(X1 ^ X2 ^ X3 ^ rk).
+pub const fn f(x0: u32, x1: u32, x2: u32, x3: u32, rk: u32) -> u32 { x0 ^ t(x1 ^ x2 ^ x3 ^ rk) }
+
+/// clause 7.3: key expansion. (K0..K3) = MK ^ FK, rk_i = K_{i+4} = K_i ^ T'(K_{i+1} ^ K_{i+2} ^ K_{i+3} ^ CK_i).
+pub fn key_expansion(mk: &[u32; 4]) -> [u32; 32] {
+    let mut k = [0u32; 36];
+    let mut i = 0;
+    while i < 4 {
+        k[i] = mk[i] ^ FK[i];
+        i += 1;
+    }
+    let mut rk = [0u32; 32];
+    let mut i = 0;
+    while i < 32 {
+        k[i + 4] = k[i] ^ t_prime(k[i + 1] ^ k[i + 2] ^ k[i + 3] ^ CK[i]);
+        rk[i] = k[i + 4];
+        i += 1;
+    }
+    rk
+}
+
+/// 32 rounds X_{i+4} = F(X_i, X_{i+1}, X_{i+2}, X_{i+3}, rk_i), then the reverse transformation
+/// R(X32, X33, X34, X35) = (X35, X34, X33, X32)  (clause 7.1).
+pub fn crypt_words(rk: &[u32; 32], x_in: &[u32; 4]) -> [u32; 4] {
+    let mut x = [0u32; 36];
+    let mut i = 0;
+    while i < 4 {
+        x[i] = x_in[i];
+        i += 1;
+    }
+    let mut i = 0;
+    while i < 32 {
+        x[i + 4] = f(x[i], x[i + 1], x[i + 2], x[i + 3], rk[i]);
+        i += 1;
+    }
+    [x[35], x[34], x[33], x[32]]
+}
+
+/// clause 7.2: decryption uses the round keys in the order (rk31, rk30, ..., rk0).
+pub fn reverse_keys(rk: &[u32; 32]) -> [u32; 32] {
+    let mut r = [0u32; 32];
+    let mut i = 0;
+    while i < 32 {
+        r[i] = rk[31 - i];
+        i += 1;
+    }
+    r
+}
+
+pub fn encrypt_words(rk: &[u32; 32], x: &[u32; 4]) -> [u32; 4] { crypt_words(rk, x) }
+pub fn decrypt_words(rk: &[u32; 32], y: &[u32; 4]) -> [u32; 4] { crypt_words(&reverse_keys(rk), y) }
+
+pub fn words_of(b: &[u8; 16]) -> [u32; 4] {
+    let mut w = [0u32; 4];
+    let mut i = 0;
+    while i < 4 {
+        w[i] = ((b[4 * i] as u32) << 24) | ((b[4 * i + 1] as u32) << 16) | ((b[4 * i + 2] as u32) << 8) | b[4 * i + 3] as u32;
+        i += 1;
+    }
+    w
+}
+pub fn bytes_of(w: &[u32; 4]) -> [u8; 16] {
+    let mut b = [0u8; 16];
+    let mut i = 0;
+    while i < 4 {
+        b[4 * i] = (w[i] >> 24) as u8;
+        b[4 * i + 1] = (w[i] >> 16) as u8;
+        b[4 * i + 2] = (w[i] >> 8) as u8;
+        b[4 * i + 3] = w[i] as u8;
+        i += 1;
+    }
+    b
+}
+
+/// Byte-level entry points with an expanded key.
+pub fn encrypt_with(rk: &[u32; 32], block: &[u8; 16]) -> [u8; 16] { bytes_of(&encrypt_words(rk, &words_of(block))) }
+pub fn decrypt_with(rk: &[u32; 32], block: &[u8; 16]) -> [u8; 16] { bytes_of(&decrypt_words(rk, &words_of(block))) }
+
+/// Byte-level entry points with the 128-bit key MK.
+pub fn encrypt(key: &[u8; 16], block: &[u8; 16]) -> [u8; 16] { encrypt_with(&key_expansion(&words_of(key)), block) }
+pub fn decrypt(key: &[u8; 16], block: &[u8; 16]) -> [u8; 16] { decrypt_with(&key_expansion(&words_of(key)), block) }
+
+#[cfg(test)]
+mod tests {
+    use super::*;
+
+    const KEY: [u8; 16] = [0x01, 0x23, 0x45, 0x67, 0x89, 0xab, 0xcd, 0xef, 0xfe, 0xdc, 0xba, 0x98, 0x76, 0x54, 0x32, 0x10];
+
+    /// GB/T 32907-2016 annex A.1: one block, with the listed round keys rk[0..3], rk[31] and states X[4..7], X[32..35].
+    #[test]
+    fn annex_a1() {
+        let rk = key_expansion(&words_of(&KEY));
+        assert_eq!(rk[0], 0xF12186F9);
+        assert_eq!(rk[1], 0x41662B61);
+        assert_eq!(rk[2], 0x5A6AB19A);
+        assert_eq!(rk[3], 0x7BA92077);
+        assert_eq!(rk[31], 0x9124A012);
+        let x = words_of(&KEY);
+        assert_eq!(f(x[0], x[1], x[2], x[3], rk[0]), 0x27FAD345);
+        let ct = encrypt(&KEY, &KEY);
+        assert_eq!(ct, [0x68, 0x1e, 0xdf, 0x34, 0xd2, 0x06, 0x96, 0x5e, 0x86, 0xb3, 0xe9, 0x4f, 0x53, 0x6e, 0x42, 0x46]);
+        assert_eq!(decrypt(&KEY, &ct), KEY);
+    }
+
+    /// annex A.2: the same key, plaintext encrypted 1 000 000 times.
+    #[test]
+    fn annex_a2() {
+        let rk = key_expansion(&words_of(&KEY));
+        let mut b = KEY;
+        let mut i = 0;
+        while i < 1_000_000 {
+            b = encrypt_with(&rk, &b);
+            i += 1;
+        }
+        assert_eq!(b, [0x59, 0x52, 0x98, 0xc7, 0xc6, 0xfd, 0x27, 0x1f, 0x04, 0x02, 0xf8, 0x04, 0xc3, 0x3d, 0x3f, 0x66]);
+    }
+
+    #[test]
+    fn ck_values() {
+        // first and last entries as printed in clause 7.3 (c)
+        assert_eq!(CK[0], 0x00070E15);
+        assert_eq!(CK[1], 0x1C232A31);
+        assert_eq!(CK[31], 0x646B7279);
+    }
+
+    // ---- independent check of the S-box table: S(x) = A * inv(A * x + c) + c in GF(2)[x] / (x^8+x^7+x^6+x^5+x^4+x^2+1)
+    fn gmul(mut a: u16, mut b: u16) -> u8 {
+        let mut r = 0u16;
+        while b != 0 {
+            if b & 1 != 0 { r ^= a; }
+            a <<= 1;
+            if a & 0x100 != 0 { a ^= 0x1F5; }
+            b >>= 1;
+        }
+        r as u8
+    }
+    fn ginv(x: u8) -> u8 {
+        if x == 0 { return 0; }
+        let mut y = 1u16;
+        while y < 256 {
+            if gmul(x as u16, y) == 1 { return y as u8; }
+            y += 1;
+        }
+        unreachable!()
+    }
+    /// cyclic (circulant) bit matrix A: output bit i = parity((0xA7 <<< i) & x), constant c = 0xD3
+    fn affine(x: u8) -> u8 {
+        let row: u8 = 0xA7;
+        let mut y = 0u8;
+        let mut i = 0;
+        while i < 8 {
+            let r = row.rotate_left(i);
+            let bit = (r & x).count_ones() as u8 & 1;
+            y |= bit << i;
+            i += 1;
+        }
+        y ^ 0xD3
+    }
+    #[test]
+    fn sbox_algebraic() {
+        let mut x = 0u16;
+        while x < 256 {
+            assert_eq!(SBOX[x as usize], affine(ginv(affine(x as u8))), "x = {x:#x}");
+            x += 1;
+        }
+        // and it is a permutation
+        let mut seen = [false; 256];
+        for v in SBOX { seen[v as usize] = true; }
+        assert!(seen.iter().all(|b| *b));
+    }
+}
